@@ -6,7 +6,15 @@ LEAN_TARGETS = ["MagpyVerif.Props.C04"]
 PROPS = ["MagpyVerif.Props.C04"]
 NOT_SHOWN = {
  "03": ["full getBH pipeline covariance with Sensor observers (proved for position observers; sensors are C04)"],
- "04": ["pixel_agg reductions other than sum/min/max (mean, median, std, ...) are not modelled; the theorem holds for any reduction function of the pixel list, the stream exercises sum/min/max"],
+ "04": ["pixel_agg as ANY reduction IS modelled and proved (c03post): Model/Level2.getBHF takes the reduction as a function of the pixel list; "
+        "`pixel_agg_is_reduction_of_sensor_frame_values`: element (l, m, k) of the result = f over exactly sensor k's own pixels of the SENSOR-FRAME values "
+        "(global field at the pixel's global position, rotated by the sensor's orientation at path index m, x-flipped iff left-handed -- all BEFORE f), both "
+        "pixel-shape branches; `..._named` = the sum / min / max instance of the integer driver (`getBH_eq_F`). mean / median / std / ptp / min / max / sum run "
+        "in the driver at IEEE double (Model/PixelAgg.lean, stream level2f, relative tolerance 1e-9, rotated and left-handed multi-pixel sensors, mixed shapes); "
+        "nothing is proved ABOUT the numpy reductions (e.g. that np.median is the median): they are arbitrary functions in the theorems and ported functions in the stream",
+        "short paths (C04/C06, Props/C06 `short_paths_edge_padded`): indexing the tiled path of the C08 tiling model equals clampGet = the object's LAST pose at "
+        "every index beyond its own path, with the witness `cyclic_tiling_differs`; the interface streams (iface) run min / max only (integer model), "
+        "median / std go through getB directly in level2f"],
  "05": ["linearity of each class's kernel in its excitation (kernel-level, see C01/C02); proved here: the marshalling preserves it for any F"],
  "06": ["batch-level control flow inside kernels (rowwise_c: trimesh grouping, segment early return, cel n<10) — kernel model pending",
         "np.squeeze / np.expand_dims / reshape semantics are assumed as modelled (shape list + unchanged row-major data), exercised by the stream"],
